@@ -88,6 +88,30 @@ pub fn check(rep: &mut Report, s: &[u8], fill: usize, note: &str) {
     });
 }
 
+/// `unarmor` on `n` characters 'w' (n a multiple of 4 plus 2 is fine: fill 0, trailing bits ones).
+/// `judge_value`: also compare length and content (C03); otherwise only a panic counts (C01).
+pub fn big_unarmor_probe(rep: &mut Report, pid: &str, n: usize, judge_value: bool) {
+    let s = vec![b'w'; n];
+    rep.eval();
+    rep.class(format!("unarmor of {} characters 'w'", n));
+    let what = format!("vec![b'w'; {}], fill 0", n);
+    let want_len = (n * 6 + 7) / 8;
+    match mon::guard(|| ais::messages::unarmor(&s, 0).ok().map(|v| (v.len(), v[..v.len() - 1].iter().position(|b| *b != 0xff)))) {
+        Err(p) => rep.violation(pid, format!("panic@{}", p.loc), format!("unarmor of {} characters panicked: '{}' at {}", n, p.msg, p.loc), || J::s(&what)),
+        Ok(None) => {
+            if judge_value {
+                rep.violation(pid, "valid-rejected".into(), format!("unarmor of {} valid characters returned an error", n), || J::s(&what));
+            }
+        }
+        Ok(Some((len, bad))) => {
+            if judge_value && (len != want_len || bad.is_some()) {
+                rep.violation(pid, "wrong-bits".into(), format!("unarmor of {} 'w': {} bytes (expected {}), first byte that is not 0xff at {:?}", n, len, want_len, bad), || J::s(&what));
+            }
+        }
+    }
+    rep.count("big-unarmor-probes");
+}
+
 /// boundary bytes around the two alphabet ranges plus extremes
 pub const EDGE_INVALID: [u8; 10] = [47, 88, 95, 120, 0, 255, b',', b'*', 0x80, b' '];
 
@@ -251,24 +275,16 @@ pub fn run(ctx: &Ctx, rep: &mut Report) {
             }
         }
     }
-    // thorough tier, std build, one shard: 2^31 + 8 characters (4 GiB of memory for input and
-    // output): a 32-bit signed character index overflows here. All 'w' gives all-ones output,
-    // which is checked without the bit-per-byte reference.
-    if ctx.thorough() && mon::CFG == "std" && ctx.shard == 0 {
-        let n = (1usize << 31) + 8;
-        let s = vec![b'w'; n];
-        rep.eval();
-        rep.class("len%4=0 fill=0 invalid=none last=ones long=2^31".to_string());
-        match mon::guard(|| ais::messages::unarmor(&s, 0).ok().map(|v| (v.len(), v.iter().position(|b| *b != 0xff)))) {
-            Err(p) => rep.violation(PID, format!("panic@{}", p.loc), format!("unarmor of 2^31 + 8 characters panicked: '{}' at {}", p.msg, p.loc), || J::s("vec![b'w'; (1 << 31) + 8], fill 0")),
-            Ok(None) => rep.violation(PID, "valid-rejected".into(), "unarmor of 2^31 + 8 valid characters returned an error".into(), || J::s("vec![b'w'; (1 << 31) + 8], fill 0")),
-            Ok(Some((len, bad))) => {
-                if len != n / 4 * 3 || bad.is_some() {
-                    rep.violation(PID, "wrong-bits".into(), format!("unarmor of 2^31 + 8 'w': {} bytes (expected {}), first byte that is not 0xff at {:?}", len, n / 4 * 3, bad), || J::s("vec![b'w'; (1 << 31) + 8], fill 0"));
-                }
-            }
+    // std build, one shard: all-'w' strings so long that a signed 32-bit *bit* offset overflows
+    // (2^31 bits = 357 913 942 characters; 0.6 GiB of memory), and in the thorough tier also an
+    // unsigned one (2^32 bits) and a signed 32-bit *character* index (2^31 characters, 4 GiB).
+    // All 'w' gives all-ones output, which is checked without the bit-per-byte reference.
+    if mon::CFG == "std" && ctx.shard == 0 {
+        big_unarmor_probe(rep, PID, 357_913_942 + 10, true);
+        if ctx.thorough() {
+            big_unarmor_probe(rep, PID, 715_827_883 + 9, true);
+            big_unarmor_probe(rep, PID, (1usize << 31) + 8, true);
         }
-        rep.count("two-gib-probe");
     }
     rep.require("expect_ok");
     rep.require("expect_err");
